@@ -8,6 +8,7 @@ import (
 	"fmt"
 	"testing"
 
+	"verif/guard"
 	"verif/refs/gcmref"
 	"verif/vx"
 )
@@ -22,6 +23,8 @@ type c10case struct {
 	Spare  string // "nil" | "empty" | "0" | "1" | "need-1" | "need" | "need+1" | "need+64" | "inplace"
 	Repeat bool
 }
+
+var c10split = guard.NewSplit(2)
 
 func c10eval(r *vx.R, c c10case) {
 	key := keyByName("std")
@@ -59,6 +62,15 @@ func c10eval(r *vx.R, c c10case) {
 		copy(backing, input)
 		inbuf = backing
 		dst = backing[:0]
+	case "need+64ro":
+		// enough capacity, and the 64 spare bytes behind the result lie in a read-only page: appending in place is fine,
+		// a store behind the result (even one that is undone before the call returns) faults
+		backing = c10split.Place(c.DstLen+need, 64, 0xA5)
+		for i := range backing[:c.DstLen+need] {
+			backing[i] = 0xA5
+		}
+		copy(backing, prefix)
+		dst = backing[:c.DstLen]
 	default:
 		spare := map[string]int{"0": 0, "1": 1, "need-1": need - 1, "need": need, "need+1": need + 1, "need+64": need + 64}[c.Spare]
 		if spare < 0 {
@@ -372,7 +384,7 @@ func spareClass(s string) string {
 	switch s {
 	case "nil", "empty", "inplace":
 		return s
-	case "need", "need+1", "need+64":
+	case "need", "need+1", "need+64", "need+64ro":
 		return "enough"
 	}
 	return "short"
@@ -453,8 +465,8 @@ func TestVX_C10_GCM(t *testing.T) {
 						if nl == 16 && !(pl == 17 || pl == 256) {
 							continue
 						}
-						for _, dl := range []int{0, 1, 2, 3, 4, 5, 6, 7, 8, 9, 11, 15, 16, 17, 31, 39} {
-							for _, sp := range []string{"nil", "empty", "0", "1", "need-1", "need", "need+1", "need+64", "inplace"} {
+						for _, dl := range []int{0, 1, 2, 3, 4, 5, 6, 7, 8, 9, 11, 15, 16, 17, 31, 39, 63, 64, 65, 100, 127, 128, 129, 191, 193, 255, 256, 257, 300, 1000, 2049} {
+							for _, sp := range []string{"nil", "empty", "0", "1", "need-1", "need", "need+1", "need+64", "need+64ro", "inplace"} {
 								if (sp == "nil" || sp == "empty" || sp == "inplace") && dl != 0 {
 									continue
 								}
